@@ -73,6 +73,11 @@ class ArmEval:
             return ("ite", self.ex(e["cond"]), self.ex(e["then"]), self.ex(e["else"]))
         if k == "Block" and not e.get("stmts") and e.get("expr") is not None:
             return self.ex(e["expr"])
+        if k == "Block" and e.get("expr") is not None and not e.get("label"):
+            # a block used as a value (e.g. an inlined helper): its statements take effect, its tail is the value
+            for s_ in e.get("stmts", []):
+                self.stmt(s_)
+            return self.ex(e["expr"])
         if k == "Call":
             f = H.peel(e["f"])
             name = H.path_canon(f) if f.get("k") == "Path" else H.canon(f)
@@ -155,7 +160,27 @@ class ArmEval:
             if thc.startswith("return Err(") and e.get("else") is None:
                 self.assumed_false.append(H.canon(e["cond"]))
                 return
-            raise Unanalysable("if: " + H.canon(e)[:80])
+            # branches that only update the accumulators: merge the two outcomes under the condition
+            try:
+                cnd = self.ex(e["cond"])
+            except Unanalysable:
+                raise Unanalysable("if: " + H.canon(e)[:80])
+            base = dict(self.state)
+            npush = len(self.pushed)
+            self.stmt({"k": "ExprStmt", "e": th})
+            st_then = dict(self.state)
+            self.state = dict(base)
+            if e.get("else") is not None:
+                self.stmt({"k": "ExprStmt", "e": H.peel(e["else"])})
+            st_else = dict(self.state)
+            if len(self.pushed) != npush or "__err__" in st_then or "__err__" in st_else:
+                raise Unanalysable("if with pushes / errors: " + H.canon(e)[:80])
+            merged = {}
+            for k_ in set(st_then) | set(st_else):
+                a_, b_ = st_then.get(k_, base.get(k_)), st_else.get(k_, base.get(k_))
+                merged[k_] = a_ if a_ == b_ else ("ite", cnd, a_, b_)
+            self.state = merged
+            return
         if ek == "For":
             it = H.canon(e["iter"])
             pat = e["pat"]
@@ -412,6 +437,21 @@ def analyzer_rule(run, ctx):
         run.violation(fam, label, "anchor-missing/Info", w, "anchor-missing: exactly one Info{..} construction expected")
         return
     fields = {f["name"]: H.canon(f["e"]) for f in infos[0]["fields"]}
+    # a field taken from an immutable local declared after the match (`let end_group = self.group_ix;`) reads through
+    tail_lets = {}
+    seen_match = False
+    for s_ in body.get("stmts", []):
+        if any(nd.get("k") == "Match" and len(nd.get("arms", [])) > 8 for nd in H.walk(s_)):
+            seen_match = True
+            continue
+        if not seen_match:
+            continue
+        if s_["k"] == "Let" and s_["pat"].get("k") == "Binding" and not s_["pat"].get("mut") and s_.get("init") is not None:
+            tail_lets[s_["pat"]["name"]] = H.canon(s_["init"])
+    for f_ in ("start_group", "end_group"):
+        if fields.get(f_) in tail_lets and tail_lets[fields[f_]].startswith("self."):
+            if f_ == "end_group":
+                fields[f_] = tail_lets[fields[f_]]
     for f in ("min_size", "const_size", "hard", "children"):
         if fields.get(f) != f:
             run.violation(fam, label, "info-field/" + f, H.where(infos[0]), "Info.%s must be the accumulated %s, found %s" % (f, f, fields.get(f)))
